@@ -70,6 +70,17 @@ def run(tools, seed, tier):
             ids.append(o["id"])
         pairs, errors = C.eval_shards("l1", HEADER, items, "l1_verdicts cases")
         verdicts = dict(pairs)
+        classes = collections.Counter()
+
+        def split(vs):
+            """verdict|known,plain,direct,other -> verdict; the counts are summed"""
+            for k in list(vs):
+                v, _, cl = vs[k].partition("|")
+                vs[k] = v
+                if cl:
+                    for name, n in zip(("known_or_destination", "no_conflict", "direct_resolution", "other"), cl.split(",")):
+                        classes[name] += int(n)
+        split(verdicts)
         # a worker that died or timed out under load is not an observation of the code: histories on which
         # the implementation "crashed" while the model terminates run again, a few at a time with a long limit
         again = [o for o in obs if verdicts.get(o["id"]) == "DIFF-impl-crash" and o.get("history")]
@@ -89,7 +100,9 @@ def run(tools, seed, tier):
                     obs = [redo.get(o["id"], o) if o["id"] in redo else o for o in obs]
                     items2 = ["(%s, %s)" % (o["case"], o["obs"]) for o in redo.values() if o.get("case") and o.get("obs")]
                     pairs2, errors2 = C.eval_shards("l1b", HEADER, items2, "l1_verdicts cases")
-                    verdicts.update(dict(pairs2))
+                    v2 = dict(pairs2)
+                    split(v2)
+                    verdicts.update(v2)
                     errors += errors2
             finally:
                 shutil.rmtree(root2, ignore_errors=True)
@@ -110,7 +123,7 @@ def run(tools, seed, tier):
             if v is None or v not in OK:
                 hist.append(dict(id=o["id"], verdict=v, kind=o["kind"], text=(o.get("text") or "")[:300],
                                  history=o.get("history"), observed=o.get("obs"), skipped=skipped.get(o["id"])))
-        res = dict(n=len(obs), evaluated=len(pairs), verdicts=dict(kinds), stats=dict(stats), skipped=len(skipped),
+        res = dict(n=len(obs), evaluated=len(pairs), add_import_classes=dict(classes), verdicts=dict(kinds), stats=dict(stats), skipped=len(skipped),
                    disagreements=[h for h in hist if h["verdict"] is not None], invalid_names=invalid[:20],
                    not_evaluated=[h for h in hist if h["verdict"] is None][:5],
                    errors=[e[1][-600:] for e in errors], seconds=round(time.time() - t0, 1))
